@@ -3,6 +3,7 @@ import importlib
 import json
 import os
 import random
+import struct
 import re
 import sys
 import traceback
@@ -135,6 +136,22 @@ def build_pool(rng, u, reg, n, fams):
                     pel, toks = mk(lambda: pm.Pel("M", pm.gen_ph(rng, u, "M"), pm.gen_uh(rng, "M"),
                                                   [pm.sec_ud(rng, u, "M", 0x2C00, sub, ver, payload, expect_mode="plugin"), pm.gen_mt(rng, u, "M")]))
                     add(pel, "m2c00:%d/v%d" % (sub, ver), group="m2c00-%d" % sub, toks=toks)
+            # shadowed table entries: a specific pattern listed BEFORE a wildcard pattern that also matches it and says
+            # something else.  One log holds only PTEs that nothing but the wildcard matches, another only the specific
+            # ones: a table that is kept between decodes and re-ordered by use (move-to-front, most-recent-match memo)
+            # describes the second log differently after the first.  Both drawer types, each log twice.
+            for ver, tab in ((1, tmex), (2, tnim)):
+                pairs = shadow_pairs(tab)
+                ctx_shadow.append(len(pairs))
+                if not pairs:
+                    continue
+                chosen = rng.sample(pairs, min(len(pairs), 6))
+                wild = b"".join(struct.pack(">HHI", rng.randrange(0x10000), k, w) for k, (sp, w) in enumerate(chosen))
+                spec = b"".join(struct.pack(">HHI", rng.randrange(0x10000), k, sp) for k, (sp, w) in enumerate(chosen))
+                for tag, payload in (("wild", wild), ("specific", spec), ("wild", wild), ("specific", spec)):
+                    pel, toks = mk(lambda: pm.Pel("M", pm.gen_ph(rng, u, "M"), pm.gen_uh(rng, "M"),
+                                                  [pm.sec_ud(rng, u, "M", 0x2C00, 73, ver, payload, expect_mode="plugin"), pm.gen_mt(rng, u, "M")]))
+                    add(pel, "m2c00:73/v%d/shadow-%s" % (ver, tag), group="m2c00-shadow%d" % ver, toks=toks)
         elif fam == 1:
             comp = rng.choice([0xFA00, 0x2000, 0xE500, 0x1000, 0x0100, 0x4142])
             for c in rng.sample("OBHMX", 4):
@@ -180,6 +197,34 @@ def build_pool(rng, u, reg, n, fams):
                                                   [pm.sec_ud(rng, u, "O", 0xE500, sub, 1, payload, expect_mode="plugin"), pm.gen_mt(rng, u, "O")]))
                     add(pel, "oe500:%d/%s" % (sub, model[:4]), group="oe500", toks=toks)
     return pool
+
+
+ctx_shadow = []
+
+
+def shadow_pairs(table):
+    """[(specific PTE, wildcard-only PTE)]: the specific PTE's first match is entry i, a LATER entry j with another message
+    matches it too, and the second PTE is matched by j and by nothing listed before j."""
+    from vf import iomodels as im
+    out = []
+    concrete = [(i, int(p, 16)) for i, (p, m, a) in enumerate(table) if len(p) == 8 and "*" not in p and all(c in "0123456789abcdefABCDEF" for c in p)]
+    wild = [(j, p) for j, (p, m, a) in enumerate(table) if len(p) == 8 and "*" in p and p.count("*") <= 4]
+    for i, v in concrete:
+        if im.ilog_entry_message(v, table) != im.ilog_entry_message(v, table[i:]):
+            continue                                   # something earlier already shadows the specific entry itself
+        for j, p in wild:
+            if j > i and im.pat_match(p, v) and table[j][1:] != table[i][1:]:
+                # a PTE that only the wildcard describes: change the starred digits until no earlier entry matches
+                for k in range(1, 256):
+                    digits = "%0*X" % (p.count("*"), (k * 0x1111 + 0x2) % (16 ** p.count("*")))
+                    it = iter(digits)
+                    w = int("".join(c if c != "*" else next(it) for c in p), 16)
+                    first = next((n for n, (q, _, _) in enumerate(table) if im.pat_match(q, w)), None)
+                    if first == j and (w >> 28) != 0xE or first == j and not (w & 0x00040000):
+                        out.append((v, w))
+                        break
+                break
+    return out
 
 
 def family_ud(rng, u, creator, comp, flavor):
@@ -426,6 +471,9 @@ def run(spec, ctx):
     for f in fams:
         ctx.see("context_family", f)
     pool = build_pool(rng, u, reg, spec["pool"], fams)
+    for n in ctx_shadow:
+        ctx.see("shadowed_pte_pairs_in_shipped_table", n)
+    ctx.counters["pool.shadow_pte_logs"] += sum(1 for it in pool if "shadow" in (it.label or ""))
     alltokens = {}
     for i, it in enumerate(pool):
         for t in it.tokens:
